@@ -80,5 +80,15 @@ CHECKS = {
         "ref": "DESIGN.md §3 C14", "note": TB + " Defaults except minimum_simulation_budget=1 to keep replays cheap.",
         "technique": "explicit-state model checking of API-call histories (depth-bounded BFS with canonical state hashing) on the real implementation",
     },
+    "C15": {
+        "level": "fault_enumeration",
+        "text": "Deviation-bounded exhaustive enumeration on the real code: for every (network, prior diagram state, operation) every "
+                "size/level/stack limit value, every small value of the configured resource limits, and every clingo ground/solve "
+                "call index at which a RuntimeError is injected. After each stop the diagram is judged (no stub with successors, "
+                "expanded nodes complete against the reference diagram or the uninterrupted run, cache invariant), the operation "
+                "is re-run relaxed and compared with the uninterrupted run, and True/False returns are checked against their contract.",
+        "ref": "DESIGN.md §3 C15", "note": TB + " Solver failures are modelled as RuntimeError raised at the clingo.Control seam; single deviations per execution.",
+        "technique": "fault and limit enumeration: every crash point / limit value of every operation on every explored diagram state, with a differential resume oracle",
+    },
 }
 NOT_CLAIMED = {f"C{i:02d}": "not claimed yet: check under construction (see DESIGN.md §9 for the build order)" for i in range(1, 21)}
